@@ -115,3 +115,36 @@ Proof.
   split; [vm_compute; reflexivity |].
   intros H. apply C37_check_iff_conforms in H. vm_compute in H. discriminate.
 Qed.
+
+(* ---- integer attribute types (StrToNum<int>, StrToNum<unsigned char> behind ReadAttr) *)
+
+(* for every range [lo, hi], len, exact flag and text: a non-empty value list is accepted iff every
+   token is an integer literal ([+-]? digit+) whose VALUE lies in [lo, hi] - and exactly these values
+   are returned, nothing wraps - with the number of tokens within the arity bounds *)
+Theorem C37_intlist_accepts_iff :
+  forall (lo hi : Z) (len : nat) (exact : bool) (text : string) (vals : list Z),
+    (read_ints lo hi len exact text = IntOk vals /\ vals <> []) <->
+    (Forall2 (fun (t : string) (z : Z) => int_value t = Some z /\ (lo <= z <= hi)%Z) (split_ws text) vals /\
+     (1 <= length vals <= len)%nat /\ (exact = true -> length vals = len)).
+Proof. exact intlist_accepts_iff. Qed.
+Print Assumptions C37_intlist_accepts_iff.
+
+(* "number is too large": the first offending token is an integer literal outside [lo, hi] *)
+Theorem C37_intlist_range_rejected :
+  forall (lo hi : Z) (len : nat) (exact : bool) (text : string),
+    read_ints lo hi len exact text = IntRange <->
+    exists (pre : list string) (t : string) (post : list string) (z : Z),
+      split_ws text = (pre ++ t :: post)%list /\
+      (exists vs : list Z, Forall2 (fun (t0 : string) (z0 : Z) => int_value t0 = Some z0 /\ (lo <= z0 <= hi)%Z) pre vs) /\
+      int_value t = Some z /\ ~ (lo <= z <= hi)%Z.
+Proof. exact intlist_range_rejected. Qed.
+Print Assumptions C37_intlist_range_rejected.
+
+Example C37_ex_int_range :
+  read_ints int32_lo int32_hi 1 true "2147483647" = IntOk [2147483647%Z] /\
+  read_ints int32_lo int32_hi 1 true "4294967297" = IntRange /\
+  read_ints int32_lo int32_hi 1 true "-2147483649" = IntRange /\
+  read_ints int32_lo int32_hi 2 false "7 99999999999999999999999" = IntRange /\
+  read_ints int32_lo int32_hi 1 true "12x" = IntFormat /\
+  read_ints 0 255 4 true "0 255 1 +3" = IntOk [0; 255; 1; 3]%Z /\ read_ints 0 255 1 true "256" = IntRange /\ read_ints 0 255 1 true "-1" = IntRange.
+Proof. vm_compute. repeat split; reflexivity. Qed.
